@@ -5,6 +5,7 @@ import TinysetModel.Proofs.CfgInst
 import TinysetModel.Proofs.Total32Insert
 import TinysetModel.Proofs.TotalOpsRun
 import TinysetModel.Proofs.RemoveTotal
+import TinysetModel.Proofs.WFSoundConv
 /-! C02 — SetU32 behaves as an exact mathematical set of u32 under every history.
 The theorems below are about the executable model instantiated at `cfg32`. -/
 namespace C02
@@ -188,6 +189,23 @@ theorem remove_returns_and_is_right_u32 {D : Type} (g : Rng D) (fuel : Nat) {r :
     ∃ r' b d', remove cfg32 g (fuel + 2) r e d = .ok ((r', b), d') ∧ RemOK cfg32 r e r' b :=
   remove_total_correct_u32 g fuel wf e he d
 
+/-- **The validator's check on a real representation is the invariant.** `wfB`/`absB` are the executable tests the
+    trace validator evaluates on the words it reads from the implementation's memory after every step (tables of
+    moderate size); they hold exactly when `WF` does.  So a checked state of the real crate satisfies the hypothesis
+    of every theorem of this development, and everything proved from `WF` applies to it. -/
+theorem checked_state_is_wellformed_u32 (r : Rp) : WF cfg32 r ↔ (wfB cfg32 r = true ∧ absB cfg32 r = true) :=
+  wf_iff_check cfg32 cfg32_ok r
+
+/-- in particular: from a state that passes the check, every history (that returns) answers like the ideal set
+    holding that state's members -/
+theorem run_refines_from_checked_u32 {D : Type} (g : Rng D) (fuel : Nat) (ops : List Op)
+    (hops : ∀ op ∈ ops, op.InRange 32) {r : Rp} (hc : wfB cfg32 r = true ∧ absB cfg32 r = true)
+    {d d' : D} {r' : Rp} {outs : List Out} (h : runOps cfg32 g fuel r ops d = .ok ((r', outs), d')) :
+    WF cfg32 r' ∧ outs = (specRun (elems cfg32 r) ops).2 ∧
+      (∀ x, x ∈ elems cfg32 r' ↔ x ∈ (specRun (elems cfg32 r) ops).1) :=
+  have wf := wf_of_check cfg32 r hc.1 hc.2
+  run_refines cfg32_ok g fuel ops hops wf (elems cfg32 r) (absOK_of_wf cfg32_ok wf).nodup (fun _ => Iff.rfl) h
+
 end C02
 
 #print axioms C02.insert_refines_u32
@@ -199,3 +217,5 @@ end C02
 #print axioms C02.insert_returns_and_is_right_u32
 #print axioms C02.every_history_u32
 #print axioms C02.remove_returns_and_is_right_u32
+#print axioms C02.checked_state_is_wellformed_u32
+#print axioms C02.run_refines_from_checked_u32
